@@ -94,6 +94,14 @@ SUMMARY = {
             "a brand-new directory, contender B's exists() before A creates LOCK and A's flock before B's, and a third attempt while A is alive (two owners on different inodes)"),
  "R3-C16": ("C16", "debug_assert_ne!(chunk_id, open chunk id) added to RaftLogWAL::load_log_payload: read() panics for an entry of the open chunk that was evicted (the original returns Err).",
             "tiny cache, rotation + completed flush, truncate and same-term re-append of a log id not above the closed chunk's last, then read before the next rotation"),
+ "R4-C03": ("C03", "send_flush sends the flush write with sync: callback.is_some(): flush(None) still writes the buffered bytes but no longer syncs, yet the RemoveChunks queued behind it unlinks the purged chunks.",
+            "purge covering a closed chunk followed by flush(None), the unsynced write not sharing a batch with a syncing one, and a power loss after the unlink and before the next fdatasync"),
+ "R4-C04": ("C04", "sync_all_files: `while files.len() > 1` became `if`: with three tracked files only the oldest is synced and dropped, the middle one is synced as 'newest', the real newest is never synced, and Ok is reported.",
+            "a rotation, then the re-sync of the older file failing once during the batch that carries the next chunk's tail, then another rotation (three tracked files) and a fault-free flush"),
+ "R4-C07": ("C07", "DumpRaftLogIter::read_log_payload reads with seek + BufReader + decode instead of the pread-based read_record: snapshots share the file position of each chunk file.",
+            "a small cache, at least two snapshots of the same store iterated concurrently by different threads, both missing the cache for entries in the same chunk file"),
+ "R4-C08": ("C08", "RemoveChunks under last_sync_failed does `pending_removal = chunk_paths` (replace) instead of extend: after two consecutive failed purge flushes the first batch of obsolete chunks is forgotten.",
+            "purge A + failed fdatasync, purge B + failed fdatasync, purge C + successful flush, each purge obsoleting a closed chunk: B's and C's chunks are unlinked while A's older one stays"),
 }
 
 
